@@ -165,6 +165,26 @@ _bi = z3.Int("i!bit")
 z3.RecAddDefinition(BITF, [_s, _p, _bi], z3.Or([z3.And(_bi % 8 == k, z3.Extract(7 - k, 7 - k, SB(_s, _p + _bi / 8)) == 1) for k in range(8)]))
 
 
+# Two spec functions defined by primitive recursion on the count.  They are declared uninterpreted and their defining
+# equations are INSTANTIATED where a proof needs them (at 0 and at the loop index): z3's automatic unfolding of recursive
+# definitions over a symbolic count made trivial VCs time out (measured: unknown after 8 s vs unsat in 0.01 s).
+NUMPOS = z3.Function("numbers_end_at", Stream, I, I, I)          # offset after i consecutive NUMBERs starting at q
+DCNT = z3.Function("digests_defined_before", Stream, I, B, I, I)  # number of defined entries among the first i of a Digests vector
+
+
+def numpos_def(s, q, i):
+    """defining equations of NUMPOS at 0 and at i (i >= 0): NUMPOS(0) = q, NUMPOS(i+1) = NUMPOS(i) + len(NUMBER at NUMPOS(i))"""
+    return z3.And(NUMPOS(s, q, z3.IntVal(0)) == q,
+                  z3.Implies(i >= 0, NUMPOS(s, q, i + 1) == NUMPOS(s, q, i) + NUML(s, NUMPOS(s, q, i))))
+
+
+def dcnt_def(s, p, ad, i):
+    """defining equations of DCNT at 0 and at i (i >= 0): DCNT(0) = 0, DCNT(i+1) = DCNT(i) + [entry i is defined]"""
+    return z3.And(DCNT(s, p, ad, z3.IntVal(0)) == 0,
+                  z3.Implies(i >= 0, DCNT(s, p, ad, i + 1) == DCNT(s, p, ad, i) + z3.If(z3.Or(ad, BITF(s, p, i)), 1, 0)))
+
+
+
 def number_python(data, p=0):
     """The same spec on python bytes (used by the known-answer lemmas and the replayer)."""
     b0 = data[p]
@@ -301,13 +321,13 @@ def byte_contracts():
             if k is None and hasattr(c.ex, "concretize") and getattr(c.ex.contract, "bounded", ""):
                 k = c.ex.concretize(c.entry, c.args["count"])
         if not bv_cd(c):
-            elem = lambda j: VBool(BITF(s, p, j))
+            elem, tag = (lambda j: VBool(BITF(s, p, j))), ("bitvector", p, z3.BoolVal(False))
         else:
             alld = bv_all(c)
-            elem = lambda j: VBool(z3.Or(alld, BITF(s, p + 1, j)))
+            elem, tag = (lambda j: VBool(z3.Or(alld, BITF(s, p + 1, j)))), ("bitvector", p + 1, alld)
         if k is not None and 0 <= k <= 64:
             return c.ex.new_list(c.st, [VBool(z3.simplify(elem(z3.IntVal(j)).t)) for j in range(k)])     # concrete count: a concrete list
-        return VSeq(n, elem, "bool")
+        return VSeq(n, elem, "bool", tag=tag)
 
     def bv_short(c):
         """raises only when the bytes the format needs are missing"""
@@ -480,8 +500,54 @@ def p_list1(term):
     return Maker(mk, desc="[int]")
 
 
+class CompSpec(LoopSpec):
+    """invariant of a list comprehension `[E for _ in range(n)]` over a symbolic n (treated as the loop it is):
+    inv(lc) as for loops (phase 'preserve' sees the element in lc.extra['elt']); result(lc) = the list (PY-LIST-ORDER)"""
+
+    def __init__(self, inv=None, result=None, havoc=(), label=""):
+        super().__init__(inv=inv, havoc=havoc, label=label)
+        self.result = result
+
+
 class C10Executor(Executor):
     """Pack-local models of the abstract 7z header view (all ASSUMED views are listed in ASSUMED_MODELS)."""
+
+    def e_ListComp(self, n, st):
+        spec = None
+        if self.contract is not None and self.inline_depth == 0 and len(n.generators) == 1 and not n.generators[0].ifs:
+            fnode = self.cur_fn_stack[-1] if self.cur_fn_stack else None
+            comps = sorted([x for x in ast.walk(fnode) if isinstance(x, ast.ListComp)], key=lambda x: (x.lineno, x.col_offset)) if fnode else []
+            if n in comps:
+                spec = self.contract.loops.get(("comp", comps.index(n)))
+        if spec is None:
+            return super().e_ListComp(n, st)
+        from pyvc.symex import LoopCtx
+        from pyvc.state import Frame
+        g = n.generators[0]
+        out = []
+        for (s2, it) in self.ev(g.iter, st):
+            if self.concrete_items(s2, it) is not None or not isinstance(it, VSeq):
+                self.unsupported(n, "comprehension with an invariant over a concrete / unknown iterable")
+            N, elem = it.length, it.elem
+            entry = s2.fork()
+            self.add_vc("inv-init", spec.label, s2.pc, spec.inv(LoopCtx(self, s2, z3.IntVal(0), entry, it, {"phase": "init"})), loc=self.loc(n))
+            body = s2.fork()
+            for h in spec.havoc:
+                h(self, body)
+            i = z3.Int(fresh_name("i"))
+            after = body.fork()
+            after.pc = list(s2.pc)
+            body.assume(z3.And(i >= 0, i < N))
+            body.assume(self._b(spec.inv(LoopCtx(self, body, i, entry, it, {"phase": "assume"}))))
+            body.frames.append(Frame({}, len(body.frames) - 1, body.frame.fnode))
+            for s3 in self.assign(g.target, elem(i), body):
+                for (s4, v) in self.ev(n.elt, s3):
+                    s4.frames.pop()
+                    self.add_vc("inv-preserve", spec.label, s4.pc, spec.inv(LoopCtx(self, s4, i + 1, entry, it, {"phase": "preserve", "elt": v})), loc=self.loc(n))
+            after.assume(N >= 0)
+            after.assume(self._b(spec.inv(LoopCtx(self, after, N, entry, it, {"phase": "exit"}))))
+            out.append((after, spec.result(LoopCtx(self, after, N, entry, it, {"phase": "exit"}))))
+        return out
 
     def add_vc(self, kind, label, pc, goal, note="", loc=""):
         """conjunctive goals are split into one VC per conjunct (small queries; the conjunction went `unknown` under load)"""
@@ -1760,100 +1826,157 @@ def digests_spec(s, q, n):
     return out
 
 
-def spec_pack_info(s, p, P):
-    """PackInfo ::= 0x06 packPos:NUMBER numPackStreams:NUMBER [0x09 size:NUMBER * n] [0x0A Digests(n)] 0x00
-    -> [(cond, ('none', p) | ('ok', packPos, [sizes], end) | ('bad', end))]   (7zFormat.txt)"""
+def spec_pack_info(s, p):
+    """PackInfo ::= 0x06 packPos:NUMBER numPackStreams:NUMBER [0x09 size:NUMBER * n] [0x0A Digests(n)] 0x00   (7zFormat.txt)
+    for ANY n -> [(cond, ('none', p) | ('ok', packPos, n, size_at(j) | None, end) | ('bad', end))]
+    Digests(n) ::= allDefined:BYTE [BitVector(n) if allDefined == 0] CRC:UINT32 * (number of defined)"""
     cases = [(SB(s, p) != bv(6), ("none", p))]
     first = SB(s, p) == bv(6)
-    q = p + 1
-    pp = NUMV(s, q)
-    q = q + NUML(s, q)
-    q = q + NUML(s, q)            # numPackStreams (== P in this bounded case)
-    t0, q0 = SB(s, q), q + 1
+    q1 = p + 1
+    pp = NUMV(s, q1)
+    q2 = q1 + NUML(s, q1)
+    n = z3.BV2Int(NUMV(s, q2), False)
+    q3 = q2 + NUML(s, q2)
+    t0 = SB(s, q3)
     for has_size in (True, False):
         if has_size:
-            c1, sizes, qq = t0 == bv(9), [], q0
-            for _ in range(P):
-                sizes.append(NUMV(s, qq))
-                qq = qq + NUML(s, qq)
-            t1, q1 = SB(s, qq), qq + 1
+            c1 = t0 == bv(9)
+            size_at = (lambda j, q=q3 + 1: NUMV(s, NUMPOS(s, q, j)))
+            qs = NUMPOS(s, q3 + 1, n)
+            t1, q4 = SB(s, qs), qs + 1
         else:
-            c1, sizes, t1, q1 = t0 != bv(9), [], t0, q0
-        tails = [(t1 != bv(0x0A), t1, q1)] + [(z3.And(t1 == bv(0x0A), dc), SB(s, dq), dq + 1) for dc, dq in digests_spec(s, q1, P)]
-        for c2, t2, q2 in tails:
-            cases.append((z3.And(first, c1, c2, t2 == bv(0)), ("ok", pp, sizes, q2)))
-            cases.append((z3.And(first, c1, c2, t2 != bv(0)), ("bad", q2)))
+            c1, size_at, t1, q4 = t0 != bv(9), None, t0, q3 + 1
+        alld = SB(s, q4) != bv(0)
+        qc = q4 + 1 + z3.If(alld, 0, (n + 7) / 8) + 4 * DCNT(s, q4 + 1, alld, n)
+        for c2, t2, q5 in ((t1 != bv(0x0A), t1, q4), (t1 == bv(0x0A), SB(s, qc), qc + 1)):
+            cases.append((z3.And(first, c1, c2, t2 == bv(0)), ("ok", pp, n, size_at, q5)))
+            cases.append((z3.And(first, c1, c2, t2 != bv(0)), ("bad", q5)))
     return cases
+
+
+def numpos_mono_at(s, q, a, b):
+    """lemma: 0 <= a <= b => NUMPOS(s, q, a) <= NUMPOS(s, q, b)   (every NUMBER takes >= 1 byte; induction on b in lemmas())"""
+    return z3.Implies(z3.And(0 <= a, a <= b), NUMPOS(s, q, a) <= NUMPOS(s, q, b))
+
+
+def dcnt_mono_at(s, p, ad, a, b):
+    """lemma: 0 <= a <= b => 0 <= DCNT(a) <= DCNT(b)"""
+    return z3.Implies(z3.And(0 <= a, a <= b), z3.And(0 <= DCNT(s, p, ad, a), DCNT(s, p, ad, a) <= DCNT(s, p, ad, b)))
 
 
 def parser_contracts():
     out = []
-    PMAX = 3
-
     def S(c):
         return stream_of(c).t
 
-    def pk_cases(c):
-        P = c.entry.ghost.get("bounded_P")
-        return spec_pack_info(S(c), pos0(c), P)
+    # ---- _parse_pack_info: ANY number of pack streams (comprehension and digest loop carry invariants)
+    SZ_LABEL = "size-j-is-the-j-th-NUMBER-after-the-0x09-marker"
+    CRC_LABEL = "one-uint32-skipped-per-defined-digest"
+
+    def stream_v(st):
+        return st.obj(st.lookup("self").ref).data["_stream"]
+
+    def havoc_stream(ex, st):
+        common.havoc_pos(ex, st, stream_v(st))
+
+    def sz_inv(lc):
+        stream = stream_v(lc.entry)
+        s_, q0 = stream.t, common.bytesio_pos(lc.entry, stream)
+        i = lc.i
+        N = lc.seq.length
+        conj = [common.bytesio_pos(lc.st, stream) == NUMPOS(s_, q0, i)]
+        if lc.extra.get("phase") in ("init", "assume"):
+            lc.st.assume(numpos_def(s_, q0, i))                      # definition of NUMPOS at 0 and at this index
+        if lc.extra.get("phase") == "assume":
+            lc.st.assume(numpos_mono_at(s_, q0, i + 1, N))          # lemma numbers-end-monotone, at this index
+        if lc.extra.get("phase") == "preserve":
+            v = lc.extra.get("elt")
+            conj.append(ops.eq_term(v, VInt(NUMV(s_, NUMPOS(s_, q0, i - 1)))) if isinstance(v, VInt) else z3.BoolVal(False))
+        return z3.And(conj)
+
+    def sz_result(lc):
+        stream = stream_v(lc.entry)
+        s_, q0 = stream.t, common.bytesio_pos(lc.entry, stream)
+        return VSeq(lc.i, lambda j: VInt(NUMV(s_, NUMPOS(s_, q0, j))), "int", tag=("numbers", s_, q0))
+
+    def crc_inv(lc):
+        stream = stream_v(lc.entry)
+        s_, c0 = stream.t, common.bytesio_pos(lc.entry, stream)
+        tag = getattr(lc.seq, "tag", None)
+        if not (isinstance(tag, tuple) and tag and tag[0] == "bitvector"):
+            raise ops.Unsupported("_parse_pack_info: digest loop not over a BitVector")
+        _t, vp, alld = tag
+        i, N = lc.i, lc.seq.length
+        if lc.extra.get("phase") in ("init", "assume"):
+            lc.st.assume(dcnt_def(s_, vp, alld, i))                  # definition of DCNT at 0 and at this index
+        if lc.extra.get("phase") == "assume":
+            lc.st.assume(dcnt_mono_at(s_, vp, alld, i + 1, N))       # lemma digests-defined-monotone, at this index
+        return common.bytesio_pos(lc.st, stream) == c0 + 4 * DCNT(s_, vp, alld, i)
 
     def pk_post(c):
         res = c.result
-        goals = []
         d = c.st.obj(c.args["self"].ref).data
-        for cond, oc in pk_cases(c):
+        goals = []
+        for cond, oc in spec_pack_info(S(c), pos0(c)):
             if oc[0] == "none":
                 g = z3.And(z3.BoolVal(res is NONE), pos1(c) == oc[1])
             elif oc[0] == "bad":
                 g = z3.BoolVal(False)
             else:
-                _ok, pp, sizes, end = oc
+                _ok, pp, n, size_at, end = oc
                 g = z3.BoolVal(False)
                 if isinstance(res, VTuple) and len(res.items) == 2 and isinstance(res.items[0], VInt):
-                    lst = c.ex.concrete_items(c.st, res.items[1])
-                    pl = c.ex.concrete_items(c.st, d["_pack_positions"])
-                    ps = c.ex.concrete_items(c.st, d["_pack_sizes"])
-                    if lst is not None and len(lst) == len(sizes) and pl is not None and len(pl) == 1 and ps is not None and len(ps) == len(sizes):
-                        want_abs = VInt(z3.ZeroExt(8, pp) + z3.BitVecVal(32, 72))
-                        g = z3.And([ops.eq_term(res.items[0], want_abs), ops.eq_term(pl[0], want_abs), pos1(c) == end, end <= SLEN(S(c))] +
-                                   [ops.eq_term(a, VInt(b)) for a, b in zip(lst, sizes)] + [ops.eq_term(a, VInt(b)) for a, b in zip(ps, sizes)])
+                    lst, ps = res.items[1], d["_pack_sizes"]
+                    pl = c.ex.concrete_items(c.st, d["_pack_positions"]) if isinstance(d["_pack_positions"], VRef) else None
+                    want_abs = VInt(z3.ZeroExt(8, pp) + z3.BitVecVal(32, 72))
+                    j = z3.Int(fresh_name("j!sz"))
+
+                    def sizes_ok(v):
+                        if size_at is None:
+                            items = c.ex.concrete_items(c.st, v) if isinstance(v, VRef) else None
+                            return z3.BoolVal(items == [])
+                        if not isinstance(v, VSeq):
+                            return z3.BoolVal(False)
+                        return z3.And(v.length == n, z3.Implies(z3.And(j >= 0, j < n), ops.eq_term(v.elem(j), VInt(size_at(j)))))
+                    if pl is not None and len(pl) == 1:
+                        g = z3.And(ops.eq_term(res.items[0], want_abs), ops.eq_term(pl[0], want_abs), pos1(c) == end, end <= SLEN(S(c)),
+                                   sizes_ok(lst), sizes_ok(ps))
             goals.append(z3.Implies(cond, g))
         return z3.And(goals)
 
     def pk_raise(c):
         L = SLEN(S(c))
-        alts = []
-        for cond, oc in pk_cases(c):
+        alts = [pos0(c) + 1 > L]
+        for cond, oc in spec_pack_info(S(c), pos0(c)):
             if oc[0] == "bad":
                 alts.append(cond)
             elif oc[0] == "ok":
-                alts.append(z3.And(cond, oc[3] > L))
-        return z3.Or(alts + [pos0(c) + 1 > L])
+                alts.append(z3.And(cond, oc[4] > L))
+        return z3.Or(alts)
 
-    def case_P(P):
-        def cond(s, pos):
-            return z3.Implies(SB(s, pos) == bv(6), NUMV(s, pos + 1 + NUML(s, pos + 1)) == bv(P, 64))
-        return cond
-
-    def pk_bind(c):
-        # which bounded alternative is this?  (the maker's condition pins numPackStreams)
-        for P in range(PMAX + 1):
-            t = NUMV(S(c), pos0(c) + 1 + NUML(S(c), pos0(c) + 1))
-            if not c.ex.feasible(c.st.pc, z3.And(SB(S(c), pos0(c)) == bv(6), t != bv(P, 64))):
-                c.entry.ghost["bounded_P"] = P
-                c.st.ghost["bounded_P"] = P
-                break
-        return req_stream(c)
+    def pk_hyps(c):
+        """instances of the monotonicity lemmas at the section ends (proved by induction in lemmas())"""
+        s_, p = S(c), pos0(c)
+        q1 = p + 1
+        q2 = q1 + NUML(s_, q1)
+        n = z3.BV2Int(NUMV(s_, q2), False)
+        q3 = q2 + NUML(s_, q2)
+        hs = [numpos_mono_at(s_, q3 + 1, z3.IntVal(0), n), numpos_def(s_, q3 + 1, z3.IntVal(0))]
+        for q4 in (NUMPOS(s_, q3 + 1, n) + 1, q3 + 1):
+            hs.append(dcnt_mono_at(s_, q4 + 1, SB(s_, q4) != bv(0), z3.IntVal(0), n))
+            hs.append(dcnt_def(s_, q4 + 1, SB(s_, q4) != bv(0), z3.IntVal(0)))
+        return z3.And(hs)
 
     out.append(FnContract(
         target=f"{RD}._parse_pack_info",
-        params=[("self", p_reader_cases({"_header_offset": p_const(32), "_pack_positions": p_empty_list(), "_pack_sizes": p_empty_list()},
-                                        [case_P(P) for P in range(PMAX + 1)]))],
-        requires=pk_bind, modifies=("self",),
+        params=[("self", p_reader({"_header_offset": p_const(32), "_pack_positions": p_empty_list(), "_pack_sizes": p_empty_list()}))],
+        requires=req_stream, hyps=pk_hyps, modifies=("self",),
         ensures=[("result-fields-and-position-equal-the-PackInfo-grammar", pk_post)],
         raises=[Raises(BAD, when=pk_raise, label="bad end marker / short stream")],
-        bounded=f"numPackStreams in 0..{PMAX}; every byte of the stream symbolic (all NUMBER widths, with / without sizes, all digest layouts)",
-        note="PackInfo grammar of 7zFormat.txt; pack position made absolute by the 32-byte signature header"))
+        loops={("comp", 0): CompSpec(inv=sz_inv, result=sz_result, havoc=(havoc_stream,), label=SZ_LABEL),
+               0: LoopSpec(inv=crc_inv, havoc=(havoc_stream,), label=CRC_LABEL)},
+        note="PackInfo grammar of 7zFormat.txt for any numPackStreams; pack position made absolute by the 32-byte signature header"))
+
     # ---- _parse_substreams_info (BOUNDED shapes)
     SHAPES = [(), (1,), (2,), (1, 1), (2, 1), (1, 2)]
 
@@ -2347,6 +2470,13 @@ def lemmas():
     a, b = z3.Int("a!lemma"), z3.Int("b!lemma")
     out.append(("C10/spec::7z-layout/lemma#rank-monotone.base", [], rank_mono_at(a, z3.IntVal(0))))
     out.append(("C10/spec::7z-layout/lemma#rank-monotone.step", [b >= 0, rank_mono_at(a, b)], rank_mono_at(a, b + 1)))
+    sl, ql, pl, adl = z3.Const("s!lemma", Stream), z3.Int("q!lemma"), z3.Int("p!lemma"), z3.Bool("ad!lemma")
+    out.append(("C10/spec::7z-header/lemma#numbers-end-monotone.base", [numpos_def(sl, ql, b)], numpos_mono_at(sl, ql, a, z3.IntVal(0))))
+    out.append(("C10/spec::7z-header/lemma#numbers-end-monotone.step", [b >= 0, numpos_def(sl, ql, b), numpos_mono_at(sl, ql, a, b)],
+                numpos_mono_at(sl, ql, a, b + 1)))
+    out.append(("C10/spec::7z-header/lemma#digests-defined-monotone.base", [dcnt_def(sl, pl, adl, b)], dcnt_mono_at(sl, pl, adl, a, z3.IntVal(0))))
+    out.append(("C10/spec::7z-header/lemma#digests-defined-monotone.step", [b >= 0, dcnt_def(sl, pl, adl, b), dcnt_mono_at(sl, pl, adl, a, b), dcnt_mono_at(sl, pl, adl, b, b)],
+                dcnt_mono_at(sl, pl, adl, a, b + 1)))
     out.append(("C10/spec::7z-layout/lemma#pack-prefix-sum-nonneg.base", [], PS(z3.IntVal(0)) >= 0))
     out.append(("C10/spec::7z-layout/lemma#pack-prefix-sum-nonneg.step", [b >= 0, PS(b) >= 0, PSZ(b) > 0], PS(b + 1) >= 0))
     return out
